@@ -1372,3 +1372,30 @@ def check_aligned_load_offsets(db, rep, rule):
     if n < 10:
         raise AnalysisBroken("only %d vector accesses with a non-constant aligned flag found in the x86 rules" % n)
     return n
+
+
+def check_listing_writer_reentrant(db, rep, rule):
+    """Every compile builds its listing through orc_compiler_append_code (formats one line, appends it to compiler->asm_code).
+    The buffers it formats into must belong to the call or to the compiler: a static or global buffer is shared by all compiles
+    in flight, so a line of one program ends up in the listing of another while the machine code, emitted from each compiler's
+    own state, stays right."""
+    from facts import AnalysisBroken, root_var
+    f = db.func("orc_compiler_append_code", "orccompiler")
+    if f is None:
+        raise AnalysisBroken("orc_compiler_append_code not found")
+    rep.saw(f)
+    WR = ("snprintf", "sprintf", "vsnprintf", "vsprintf", "strcpy", "strncpy", "strcat", "strncat", "memcpy", "memmove", "memset")
+    bad = None
+    for x in f.walk():
+        tgt = None
+        if x.k == "CallExpr" and x.name and x.name.replace("__builtin___", "").replace("_chk", "") in WR and x.args():
+            tgt = root_var(x.args()[0])
+        elif x.k in ("BinaryOperator", "CompoundAssignOperator") and x.op.endswith("=") and x.op not in ("==", "!=", "<=", ">="):
+            tgt = root_var(x.c[0])
+        if tgt is not None and tgt.get("dk") in ("static_local", "global"):
+            bad = (x, tgt.name)
+    rep.check(bad is None, rule, "orc/orccompiler.c::orc_compiler_append_code", "orc_compiler_append_code",
+              "the listing writer formats into storage of its own call / its compiler",
+              "orc_compiler_append_code writes the %s `%s`: two compiles running at the same time format their lines into the same storage, and the "
+              "listing one of them returns contains lines (or half lines) of the other - it no longer is the program of its machine code" %
+              ("static buffer" if bad else "", bad[1] if bad else ""), line=bad[0].line if bad else None)
